@@ -50,6 +50,16 @@ def dedicated():
                                D("r2", ("cond", B(">", V("bb"), I(0)), I(1)), "Bundle")],
         "bundle-anyall": [D("bb", BUN, "Bundle"), D("r1", B(">", ("any", V("bb")), I(2))), D("r2", B(">", ("all", V("bb")), I(2)))],
     }
+    # an anonymous constant shared by several consumers through a Signal parameter: one consumer is folded away,
+    # another copies the constant (':' value), tests it or merges it
+    gate = lambda ret, extra=(): ("func", "gate", [("Signal", "k"), ("Signal", "s")], list(extra), ret)
+    twice = D("tw", B("*", V("k"), I(2)))
+    pas = D("pa", ("cond", B(">", V("s"), I(0)), V("k")))
+    cases["const-param-copy"] = [gate(B("+", V("pa"), V("tw")), [twice, pas]), D("r1", ("call", "gate", [("lit", "signal-K", I(5)), A]))]
+    cases["const-param-copy-int"] = [gate(B("+", V("pa"), V("tw")), [twice, pas]), D("r1", ("call", "gate", [I(5), A]))]
+    cases["const-param-copy-proj"] = [gate(B("+", V("pa"), V("tw")), [twice, pas]), D("r1", ("call", "gate", [("proj", I(5), "signal-K"), A]))]
+    cases["const-param-test"] = [gate(B("+", ("cond", B(">", V("k"), V("s")), V("s")), V("tw")), [twice]), D("r1", ("call", "gate", [I(5), A]))]
+    cases["const-param-twice"] = [gate(B("+", V("pa"), V("tw")), [twice, pas]), D("r1", ("call", "gate", [I(5), A])), D("r2", ("call", "gate", [I(7), C]))]
     for tag, body in cases.items():
         yield tag, body, [], None
     # entity property / inline condition / coordinate consumers
